@@ -225,9 +225,11 @@ def run_regroup(ctx, loe, rng, widths, mlw, bs):
         logits.append([np.arange(len(p) + rng.choice([0, 0, 2]), dtype=np.int64).reshape(-1, 1) * np.ones((1, 3), dtype=np.int64) + 1000 * k + 100000 * li
                        for k, p in enumerate(ps)])
     unknown = []
+    calls = []
 
     def run_ocr(batch):
         outs_t, outs_l = [], []
+        calls.append([])
         for img in batch:
             cols = img[0, :, :].astype(np.int64)
             idx = np.nonzero(cols[:, 0])[0]
@@ -247,6 +249,7 @@ def run_regroup(ctx, loe, rng, widths, mlw, bs):
                 continue
             outs_t.append(parts[li][k])
             outs_l.append(logits[li][k].copy())
+            calls[-1].append((li, k))
         return outs_t, outs_l
     eng.run_ocr = run_ocr
     lines = []
@@ -282,6 +285,21 @@ def run_regroup(ctx, loe, rng, widths, mlw, bs):
     if any(len(p) >= 2 for p in parts):
         ctx.nontriv(['regroup', widths, mlw, parts])
     ctx.count('regroup_cases')
+    # model request per network call: the spans (windows per line, in batch order) and the window results -> per-line stitching
+    out = []
+    for call in calls:
+        order, spans = [], []
+        for li, k in call:
+            if order and order[-1] == li:
+                spans[-1] += 1
+            else:
+                order.append(li)
+                spans.append(1)
+        req = dict(p='C15', op='regroup', spans=spans,
+                   parts=[[[ord(ch) for ch in parts[li][k]], [int(x) for x in logits[li][k][:, 0]]] for li, k in call])
+        got = [[[ord(ch) for ch in tr[li]], [int(x) for x in np.asarray(lg[li])[:, 0]]] for li in order]
+        out.append((req, got, inp))
+    return out
 
 
 def run(ctx):
@@ -365,11 +383,20 @@ def run(ctx):
         bs = rng.choice([1, 2, 8])
         widths = [max(1, min(rng.choice([mlw - 1, mlw + 1, 2 * mlw, rng.randrange(1, 5 * mlw)]), 480 * bs - 64)) for _ in range(rng.randrange(1, 4))]
         ctx.evaluations += 1
-        run_regroup(ctx, loe, rng, widths, mlw, bs)
+        for req, got, rinp in (run_regroup(ctx, loe, rng, widths, mlw, bs) or []):
+            reqs.append(req)
+            impl.append(got)
+            cases.append(('regroup', rinp))
     if ctx.driver_ok:
         rep = common.Driver(ctx).batch(reqs)
         for r, got, case in zip(rep, impl, cases):
             m = r.get('ok', r.get('err'))
+            if case[0] == 'regroup':
+                if m != got:
+                    ctx.disagree('C15.regroup model != implementation (per-line stitching of the window results of one network call)', case[1], got, m)
+                else:
+                    ctx.traces_validated += 1
+                continue
             if case[0] == 'win':
                 m = [[a, min(b, case[1])] for a, b in m] if case[1] > case[2] else [[0, case[1]]]
                 if m != got:
